@@ -768,10 +768,47 @@ DEC_HELPERS = {
 }
 
 
-def oracle_c04(en, decl, win):
+def tables_again(T, suffix="2"):
+    """Go statements that emit Values/Strings/ValueMap/StringMap once more (keys values2 …): the tables are a function of the
+    declaration, not of what was decoded before"""
+    return ('''	{
+		var z %(T)s
+		var p []string
+		for _, v := range z.Values() {
+			p = append(p, verifDec(v))
+		}
+		emit("values%(s)s", strings.Join(p, ","))
+		emit("strings%(s)s", strings.Join(z.Strings(), ","))
+		m := z.ValueMap()
+		ks := make([]string, 0, len(m))
+		for k := range m {
+			ks = append(ks, k)
+		}
+		sort.Strings(ks)
+		p = nil
+		for _, k := range ks {
+			p = append(p, k+"="+verifDec(m[k]))
+		}
+		emit("vmap%(s)s", strings.Join(p, ","))
+		sm := z.StringMap()
+		vs := make([]%(T)s, 0, len(sm))
+		for k := range sm {
+			vs = append(vs, k)
+		}
+		sort.Slice(vs, func(i, j int) bool { return vs[i] < vs[j] })
+		p = nil
+		for _, k := range vs {
+			p = append(p, verifDec(k)+"="+sm[k])
+		}
+		emit("smap%(s)s", strings.Join(p, ","))
+	}
+''' % {"T": T, "s": suffix})
+
+
+def oracle_c04(en, decl, win, strs=()):
     T = en["T"]
     sg = KINDS[en["kind"]][0]
-    src = ['package cs\n', 'import (\n\t"sort"\n\t"strconv"\n\t"strings"\n)\n', DEC_HELPERS[sg] % {"T": T}]
+    src = ['package cs\n', 'import (\n\t"sort"\n\t"strconv"\n\t"strings"\n\n\t"github.com/lopolopen/shoot"\n)\n', DEC_HELPERS[sg] % {"T": T}]
     src.append("func VerifObserve(emit func(string, string)) {\n\tvar z %s\n" % T)
     src.append('\temit("decl", strings.Join([]string{%s}, ","))\n' % ", ".join('"%s=" + verifDec(%s)' % (n, n) for n, _ in decl))
     src.append('\t{\n\t\tvar p []string\n\t\tfor _, v := range z.Values() {\n\t\t\tp = append(p, verifDec(v))\n\t\t}\n\t\temit("values", strings.Join(p, ","))\n\t}\n')
@@ -782,7 +819,14 @@ def oracle_c04(en, decl, win):
                '\t\tsort.Slice(ks, func(i, j int) bool { return ks[i] < ks[j] })\n'
                '\t\tvar p []string\n\t\tfor _, k := range ks {\n\t\t\tp = append(p, verifDec(k)+"="+m[k])\n\t\t}\n\t\temit("smap", strings.Join(p, ","))\n\t}\n' % T)
     src.append("\tfor _, x := range []%s{%s} {\n" % (T, ", ".join(str(v) for v in win)))
-    src.append('\t\temit("str:"+verifDec(x), x.String())\n\t\temit("valid:"+verifDec(x), strconv.FormatBool(x.IsValid()))\n\t}\n}\n')
+    src.append('\t\temit("str:"+verifDec(x), x.String())\n\t\temit("valid:"+verifDec(x), strconv.FormatBool(x.IsValid()))\n\t}\n')
+    # a history of decoder calls (the runtime helpers: no codec flag here) with differently-cased, prefixed, listed and unknown
+    # spellings, then the agreement observations AGAIN
+    src.append('\tfor _, s := range []string{%s} {\n\t\t_, _ = shoot.ParseEnum[%s](s)\n\t\tvar t %s\n\t\t_ = shoot.TryParseEnum(s, &t)\n\t}\n'
+               % (", ".join(gostr(x) for x in strs) or '""', T, T))
+    src.append(tables_again(T))
+    src.append("\tfor _, x := range []%s{%s} {\n" % (T, ", ".join(str(v) for v in win)))
+    src.append('\t\temit("valid2:"+verifDec(x), strconv.FormatBool(x.IsValid()))\n\t}\n}\n')
     return "\n".join(src)
 
 
@@ -806,9 +850,21 @@ def str_probes(rng, T, decl, nmax=26):
         if s not in seen:
             seen.append(s)
     head = seen[:min(len(names), 6)]
-    rest = seen[len(head):]
+    # LISTS of declared names and other composite spellings: undeclared strings like any other
+    lists = []
+    if len(names) >= 2:
+        a, b = pick[0], pick[1]
+        lists += ["%s, %s" % (a, b), "%s,%s" % (b, a), "%s , %s" % (a, b), "%s|%s" % (a, b), "%s %s" % (a, b), "%s;%s" % (a, b), "%s+%s" % (a, b)]
+        if len(names) >= 3:
+            lists += ["%s, %s, %s" % (pick[0], pick[1], pick[2]), "%s,%s,%s" % (pick[2], pick[0], pick[1])]
+    else:
+        lists += ["%s, %s" % (pick[0], pick[0]), "%s," % pick[0], ",%s" % pick[0]]
+    lists = [x for x in lists if x not in head]
+    # differently-cased spellings of declared names always take part (decoder histories)
+    cased = [x for x in [pick[0].lower(), pick[0].upper(), pick[-1].swapcase()] if x not in head and x not in lists and x not in names]
+    rest = [x for x in seen[len(head):] if x not in lists and x not in cased]
     rng.shuffle(rest)
-    return head + rest[:nmax - len(head)]
+    return head + lists + cased + rest[:max(0, nmax - len(head))]
 
 
 def json_probes(rng, strs, decl, T):
@@ -880,7 +936,7 @@ def pick_target(kind, decl):
 def oracle_c12(en, decl, flags, target, strs, jsons, sqls, ints, encs, tints):
     T = en["T"]
     sg = KINDS[en["kind"]][0]
-    imps = ['"database/sql"', '"database/sql/driver"', '"encoding"', '"encoding/json"', '"strconv"', '"strings"', '"time"',
+    imps = ['"database/sql"', '"database/sql/driver"', '"encoding"', '"encoding/json"', '"sort"', '"strconv"', '"strings"', '"time"',
             '"github.com/lopolopen/shoot"']
     src = ['package cs\n', "import (\n\t" + "\n\t".join(imps) + "\n)\n", DEC_HELPERS[sg] % {"T": T}]
     src.append('''var _ = time.Time{}
@@ -1124,6 +1180,15 @@ func verifRes(err error, t %(T)s) string {
         return out
     src.append(isenum_lines(ints, ""))
     src.append(isenum_lines(tints, "T/"))
+    # after the whole history of decoder calls: the agreement observations of C04 once more
+    src.append(tables_again(T))
+    # ParseEnum evaluated in a package-level initializer of 0init.go, a file that sorts before the generated one (case <id>i)
+    src.append('''	if VerifInitErr == nil {
+		emit("I/init.parse", "ok "+verifDec(VerifInitParse))
+	} else {
+		emit("I/init.parse", "err")
+	}
+''')
     src.append("}\n")
     return "\n".join(src)
 
@@ -1279,6 +1344,13 @@ def check_infra(msg):
     """a compile failure caused by the Go build cache being trimmed under the running build is an infrastructure error, not an observation"""
     if "go-build" in msg and ("no such file or directory" in msg or "could not import" in msg):
         raise core.InfraError("the Go build cache was modified while the case module was being compiled: " + msg[:300])
+
+
+def init_file(T, name):
+    """0init.go: a package-level variable of the enum's own package initialized by ParseEnum, in a file that sorts before every
+    generated file (`0…` < `a…`)"""
+    return ('package cs\n\nimport "github.com/lopolopen/shoot"\n\n// a package-level default parsed from its name\n'
+            'var VerifInitParse, VerifInitErr = shoot.ParseEnum[%s](%s)\n' % (T, gostr(name)))
 
 
 def last_rc(runs):
